@@ -52,6 +52,8 @@ func die(format string, a ...any) {
 
 var counter int
 
+var loopYields bool
+
 func parseStmt(code string) ast.Stmt {
 	wrapped := "package p\nfunc _() {\n" + code + "\n}\n"
 	f, err := parser.ParseFile(token.NewFileSet(), "", wrapped, 0)
@@ -142,7 +144,8 @@ func rewriteSelect(base string, sel *ast.SelectStmt) ast.Stmt {
 	} else {
 		fmt.Fprintf(&b, "if _si%d < 0 {\nselect {\n%s\n}\n}\n", id, strings.Join(blockCases, "\n"))
 	}
-	fmt.Fprintf(&b, "switch _si%d {\n%s\n}\n}", id, strings.Join(bodies, "\n"))
+	// the default case keeps the statement "terminating" in Go's sense when every original case body is
+	fmt.Fprintf(&b, "switch _si%d {\n%s\ndefault:\npanic(\"bsim: select resolved to no case\")\n}\n}", id, strings.Join(bodies, "\n"))
 	return parseStmt(b.String())
 }
 
@@ -260,6 +263,23 @@ func rewriteFile(path string) {
 				counts["locks"]++
 			}
 		}
+		if loopYields {
+			// a scheduling point at the head of every loop iteration (used for the KV store adapters, whose batch
+			// execution loops contain no synchronisation of their own)
+			var body *ast.BlockStmt
+			switch l := c.Node().(type) {
+			case *ast.ForStmt:
+				body = l.Body
+			case *ast.RangeStmt:
+				body = l.Body
+			}
+			if body != nil {
+				line := fset.Position(body.Pos()).Line
+				body.List = append([]ast.Stmt{parseStmt(fmt.Sprintf("simhook.Yield(\"\", \"loop:%s:%d\")", base, line))}, body.List...)
+				changed++
+				counts["loops"]++
+			}
+		}
 		if es, ok := c.Node().(*ast.ExprStmt); ok && c.Index() >= 0 {
 			// a scheduling point before every lock acquisition
 			if call, ok := es.X.(*ast.CallExpr); ok {
@@ -321,6 +341,7 @@ func main() {
 	minLock := flag.Int("min-locks", 0, "")
 	minGo := flag.Int("min-gos", 0, "")
 	minChan := flag.Int("min-chanops", 0, "")
+	flag.BoolVar(&loopYields, "loops", false, "also insert a yield at the head of every loop body")
 	flag.Parse()
 	ctx := build.Default
 	ctx.BuildTags = []string{"verif"}
@@ -348,7 +369,7 @@ func main() {
 			rewriteFile(filepath.Join(dir, n))
 		}
 	}
-	fmt.Printf("simrewrite: files=%d selects=%d locks=%d gos=%d chanops=%d\n", counts["files"], counts["selects"], counts["locks"], counts["gos"], counts["chanops"])
+	fmt.Printf("simrewrite: files=%d selects=%d locks=%d gos=%d chanops=%d loops=%d\n", counts["files"], counts["selects"], counts["locks"], counts["gos"], counts["chanops"], counts["loops"])
 	if counts["selects"] < *minSel || counts["locks"] < *minLock || counts["gos"] < *minGo || counts["chanops"] < *minChan {
 		die("fewer rewritten sites than expected (min selects=%d locks=%d gos=%d chanops=%d): the pass silently missed code", *minSel, *minLock, *minGo, *minChan)
 	}
